@@ -805,10 +805,10 @@ def oracle_cases(ctx, full):
     rng = ctx.rng
     cases = [c for c in FIXED_CASES if c[0] not in ("mkview",)]
     # boundary enumeration the property names: rank 1, every window x every component
-    for c in exhaustive_cases(3 if full else 2, rank2=True, reduced=True):
+    for c in (exhaustive_cases(3, rank2=True, reduced=True) if full else exhaustive_cases(2, rank2=False)):
         if c[0] != "np":
             cases.append(c)
-    n_rand = 40000 if full else 2500
+    n_rand = 40000 if full else 7000
     for _ in range(n_rand):
         shape = gen_shape(rng)
         if rng.random() < 0.3:
